@@ -16,9 +16,15 @@ NASTY = ['a b', 'back\\slash', 'C:\\bin', "it's", 'say "hi"', 'tab\there', 'line
          'p|q', 'None', '0', ' lead', 'trail ', '\x08bs', 'ß', '\u2028ls', 'x' * 40]
 
 
-def deep_view(pc, ctx):
-    """Everything observable of a context and its lattice that the other properties pin, as text."""
-    L = ctx.lattice
+CTX_ONLY = '(context not reachable from a bare lattice)'
+SEP = '\n\x00\n'      # separates the view lines (labels may contain line breaks)
+
+
+def deep_view(pc, ctx, lattice=None):
+    """Everything observable of a context and its lattice that the other properties pin, as text.
+    With `lattice` given (an unpickled Lattice, whose context has no public accessor) the two context lines are placeholders;
+    `same_view` ignores them."""
+    L = ctx.lattice if lattice is None else lattice
     cs = list(L)
     out = [lattice_view(pc, L)]
     out.append('|'.join(','.join(c.minimal()) for c in cs[:40] if len(c.intent) <= 12))
@@ -29,11 +35,19 @@ def deep_view(pc, ctx):
     out.append('|'.join('%d,%d' % ((cs[a] | cs[b]).index, (cs[a] & cs[b]).index) for a, b in pairs))
     c1 = cs[min(1, k - 1)]
     out.append('|'.join(','.join(a) for a in itertools.islice(c1.attributes(), 5)) if len(c1.intent) <= 12 else 'skipped')
-    out.append(repr((ctx.objects, ctx.properties, ctx.bools)))
-    out.append(','.join(ctx.intension(ctx.objects[:1])) + '/' + ','.join(ctx.extension(ctx.properties[:1])))
+    if lattice is None:
+        out.append(repr((ctx.objects, ctx.properties, ctx.bools)))
+        out.append(','.join(ctx.intension(ctx.objects[:1])) + '/' + ','.join(ctx.extension(ctx.properties[:1])))
+    else:
+        out += [CTX_ONLY, CTX_ONLY]
     out.append(str(L.infimum.index) + ' ' + str(L.supremum.index) + ' ' + show_list(a.index for a in L.atoms))
     out.append(type(L.infimum).__name__ + ' ' + type(L.supremum).__name__ + ' ' + ','.join(sorted({type(c).__name__ for c in cs})))
-    return '\n'.join(out)
+    return SEP.join(out)
+
+
+def same_view(v, base):
+    lv, lb = v.split(SEP), base.split(SEP)
+    return len(lv) == len(lb) and all(a == b or a == CTX_ONLY for a, b in zip(lv, lb))
 
 
 def permute_stored(rng, stored):
@@ -81,10 +95,7 @@ for tab, what, blob in items:
     pc.ppos = {p: j for j, p in enumerate(pc.properties)}
     try:
         obj = pickle.loads(blob)
-        ctx = obj if what == 'context' else obj._context
-        if what == 'lattice':
-            ctx.__dict__['lattice'] = obj
-        out.append(deep_view(pc, ctx))
+        out.append(deep_view(pc, obj) if what == 'context' else deep_view(pc, None, lattice=obj))
     except Exception as e:
         out.append('raised %%s: %%s' %% (type(e).__name__, e))
 with open(%(path)r + '.out', 'wb') as f:
@@ -128,21 +139,22 @@ def run(run):
                       and [tuple(r) for r in dd['context']] == [tuple(members_of(r)) for r in pc.rows])
             if not enc_ok or gstored != mstored:
                 run.fail('todict() encoding', {k: dd[k] for k in dd}, mstored, [pc.line, 'tolist'], extra)
-            if base.split('\n')[0] != mlat:
-                run.fail('lattice recomputed from scratch differs from the model', base.split('\n')[0], mlat, [pc.line, 'lattice'], extra)
+            if base.split(SEP)[0] != mlat:
+                run.fail('lattice recomputed from scratch differs from the model', base.split(SEP)[0], mlat, [pc.line, 'lattice'], extra)
 
-            def check(what, ctx2, need_lattice=True):
+            def check(what, ctx2, need_lattice=True, lattice=None):
                 with guard(run, what, [pc.line, 'lattice']):
-                    if not (ctx2 == ctx) or ctx2 != ctx:
-                        run.fail(what + ': reloaded context != original', None, None, [pc.line], extra)
-                    if need_lattice and 'lattice' not in ctx2.__dict__:
-                        run.fail(what + ': stored lattice was not loaded', None, None, [pc.line], extra)
-                    v = deep_view(pc, ctx2)
+                    if lattice is None:
+                        if not (ctx2 == ctx) or ctx2 != ctx:
+                            run.fail(what + ': reloaded context != original', None, None, [pc.line], extra)
+                        if need_lattice and "'lattice'" not in ctx2.tostring('python-literal'):
+                            run.fail(what + ': stored lattice was not loaded', None, None, [pc.line], extra)
+                    v = deep_view(pc, ctx2, lattice=lattice)
                 run.case(pc.line + '|' + what, gen.nontrivial(tab), {'context': pc.line, 'carrier': what})
                 run.count(what.split(' ')[0])
-                if v != base:
-                    lines_v, lines_b = v.split('\n'), base.split('\n')
-                    bad = [i for i in range(len(lines_b)) if i >= len(lines_v) or lines_v[i] != lines_b[i]]
+                if not same_view(v, base):
+                    lines_v, lines_b = v.split(SEP), base.split(SEP)
+                    bad = [i for i in range(len(lines_b)) if i >= len(lines_v) or (lines_v[i] != lines_b[i] and lines_v[i] != CTX_ONLY)]
                     run.fail(what + ': reloaded lattice is distinguishable from the recomputed one (view line %s)' % bad[:3],
                              [lines_v[i] for i in bad[:2]], [lines_b[i] for i in bad[:2]], [pc.line, 'lattice'], extra)
 
@@ -207,9 +219,7 @@ def run(run):
                 check('pickle context', pickle.loads(pickle.dumps(ctx)), need_lattice=False)
                 for proto in (2, pickle.HIGHEST_PROTOCOL):
                     L2 = pickle.loads(pickle.dumps(ctx.lattice, proto))
-                    c2 = L2._context
-                    c2.__dict__['lattice'] = L2
-                    check('pickle lattice proto %d' % proto, c2)
+                    check('pickle lattice proto %d' % proto, None, lattice=L2)
                 if len(fresh_items) < (60 if run.tier == 'quick' else 400) and count % 3 == 0:
                     fresh_items.append((tab, 'context', pickle.dumps(ctx)))
                     fresh_expect.append((pc.line, base))
@@ -224,15 +234,15 @@ def run(run):
                     basen = deep_view(pn, concepts.Context(pn.objects, pn.properties, pn.bools))
                     cn = pn.ctx
                     cn.lattice
-                    for what, c2 in (
-                            ('literal with lattice (awkward labels)', concepts.Context.fromstring(cn.tostring('python-literal'), 'python-literal')),
-                            ('dict (awkward labels)', concepts.Context.fromdict(cn.todict())),
-                            ('json (awkward labels)', (lambda b: (cn.tojson(b), concepts.Context.fromjson(io.StringIO(b.getvalue())))[1])(io.StringIO())),
-                            ('pickle lattice (awkward labels)', (lambda L2: (L2._context.__dict__.__setitem__('lattice', L2), L2._context)[1])(pickle.loads(pickle.dumps(cn.lattice))))):
+                    for what, c2, lat2 in (
+                            ('literal with lattice (awkward labels)', concepts.Context.fromstring(cn.tostring('python-literal'), 'python-literal'), None),
+                            ('dict (awkward labels)', concepts.Context.fromdict(cn.todict()), None),
+                            ('json (awkward labels)', (lambda b: (cn.tojson(b), concepts.Context.fromjson(io.StringIO(b.getvalue())))[1])(io.StringIO()), None),
+                            ('pickle lattice (awkward labels)', None, pickle.loads(pickle.dumps(cn.lattice)))):
                         run.case(pc.line + '|' + what, gen.nontrivial(tab))
                         run.count(what.split(' ')[0])
-                        if not (c2 == cn) or deep_view(pn, c2) != basen:
-                            run.fail(what + ': reloaded context / lattice differs', [c2.objects, c2.properties], [cn.objects, cn.properties], [pc.line], {'labels': labels})
+                        if (c2 is not None and not (c2 == cn)) or not same_view(deep_view(pn, c2, lattice=lat2), basen):
+                            run.fail(what + ': reloaded context / lattice differs', None, [cn.objects, cn.properties], [pc.line], {'labels': labels})
         # fresh interpreter with another hash seed
         if fresh_items:
             path = os.path.join(work, 'fresh.pkl')
@@ -249,7 +259,7 @@ def run(run):
                 for (tab, what, _), (line, base), v in zip(fresh_items, fresh_expect, outs):
                     run.case(line + '|fresh ' + what + seed, True)
                     run.count('fresh-process ' + what)
-                    if v != base:
+                    if not same_view(v, base):
                         run.fail('pickle of %s loaded in a fresh interpreter (PYTHONHASHSEED=%s)' % (what, seed), v[:600], base[:600], [line, 'lattice'])
         # large lattices: pickling (known finding D3 above 330 concepts)
         big = [gen.contranominal(9)] + ([gen.ordinal(200)] if run.tier == 'thorough' else []) + [gen.ordinal(60), gen.contranominal(8)]
